@@ -93,8 +93,8 @@ func (t *TicketAuthenticator) Authenticate(sid wamp.ID, details wamp.Dict, clien
 	}
 	authRsp, ok := msg.(*wamp.Authenticate)
 	if !ok {
-		return nil, fmt.Errorf("unexpected %v message received from client %v",
-			msg.MessageType(), client)
+		return nil, fmt.Errorf("unexpected %v message received from client",
+			msg.MessageType())
 	}
 
 	// The client will send an AUTHENTICATE message containing a ticket. The
